@@ -3786,8 +3786,8 @@ let mask_load_fb n0 mask0 mem0 =
     ('a1 -> 'a1 -> bool) -> ('a1 -> ('a1 -> 'a2) -> 'a2) -> ('a1 -> 'a2) ->
     'a1 -> 'a1 -> 'a2 **)
 
-let sa_step eqb0 g v i k =
-  if eqb0 k i then g i v else v k
+let sa_step eqb0 g v i =
+  let x = g i v in (fun k -> if eqb0 k i then x else v k)
 
 (** val sa_run :
     ('a1 -> 'a1 -> bool) -> ('a1 -> ('a1 -> 'a2) -> 'a2) -> 'a1 list -> ('a1
